@@ -78,14 +78,42 @@ def _loop_effects(prog, b, blocks, depth=0):
     return sens, unk, keyed
 
 
+def _sort_total(b, t, bi):
+    """does this sort call put the elements of a sequence drawn from a map/set into an order that depends on the elements alone?  `sort`/`sort_unstable`
+    (whole elements, which are distinct) and a key that is the whole element or its first component (the map key) do; a key that is some other
+    projection (`|s| s.1.syms_staked`) leaves elements with equal keys in the order the unordered source produced them.  None = not read."""
+    n = mir.callee_name(t).split("::")[-1]
+    if n in ("sort", "sort_unstable"):
+        return True
+    if n in ("sort_by_key", "sort_unstable_by_key", "sort_by_cached_key"):
+        e = b.rec_call(t, bi)
+        c = mir.strip(e[2][1]) if len(e[2]) > 1 else None
+        cb = b.prog.body(c[1]) if c and c[0] == "closure" else None
+        rr = q.ret_assignments(cb) if cb is not None else []
+        if len(rr) != 1:
+            return None
+        k = sig(q.novers(mir.strip(rr[0][2])))
+        if k in ("$2", "$2.0", "$2.0.0"):
+            return True
+        if k.startswith("$2.") or k.startswith("$2"):
+            return False
+        return None
+    return None
+
+
 def _sorted_afterwards(b, vec_expr, after_block):
+    sorts = []
     for bi, t in b.calls():
         n = mir.callee_name(t).split("::")[-1]
         if n.startswith("sort") and b.dominates(after_block, bi):
             e = b.rec_call(t, bi)
             if q.novers(e[2][0]) == q.novers(vec_expr) or sig(q.novers(e[2][0])) in sig(q.novers(vec_expr)) or q.contains(vec_expr, lambda x: False):
-                return True
-    return False
+                sorts.append((bi, t))
+    if not sorts:
+        return False
+    # the first sort decides: a later stable sort by another key refines an order that must already be canonical
+    first = [x for x in sorts if not any(y is not x and b.dominates(y[0], x[0]) and y[0] != x[0] for y in sorts)] or sorts[:1]
+    return _sort_total(b, first[0][1], first[0][0]) is not False
 
 
 def _closure_class(prog, c_expr):
@@ -518,6 +546,17 @@ def r5_globals(ctx):
     if val is not None:
         callers = prog.callers_of(val.id)
         r.check(not callers, "stat-read", "statistics are not read inside the workspace", "statistics are read by %s" % [prog.by_id[c].nname for c in callers])
+    _inflator(ctx, r)
+
+
+def r5_inflator(ctx):
+    """the inflator-table part of R5 on its own (imported by C18 and C01: the ERG reward bound is computed with the inflator of the state's own height)"""
+    r = ctx.rule("R5", "the inflator table is filled only by microergs_per_dosc, every entry a function of the previous one, and microergs_per_dosc(h) hands back the entry at index h")
+    _inflator(ctx, r)
+
+
+def _inflator(ctx, r):
+    prog = ctx.prog
     # users of the inflator table
     users = set()
     for b in prog.bodies:
@@ -528,9 +567,9 @@ def r5_globals(ctx):
                 users.add(mir.norm_name(b.nname.split("::{closure")[0]))
     r.check(users <= {"melstf::state::melmint::microergs_per_dosc"}, "inflator/users", "the inflator table is touched only by microergs_per_dosc", "the inflator table is used by %s" % sorted(users))
     m = ctx.body("melstf::state::melmint::microergs_per_dosc", r)
-    cl = prog.closures_of(m)
+    cl = prog.all_nested(m)
     pushes = [(c, bi, e) for c in cl for bi, e in q.call_exprs(c, "Vec::push")]
-    r.floor("table pushes", len(pushes), 2)
+    r.floor("table pushes", len(pushes), 1)
     for c, bi, e in pushes:
         v = sig(q.novers(e[2][1]))
         ok = v == "MICRO_CONVERTER" or ("last" in v and "height" not in v and "$" not in v.replace("$1", ""))
@@ -545,10 +584,11 @@ def r5_globals(ctx):
             continue
         for rb, ri, rv in q.ret_assignments(c):
             rs = sig(q.novers(rv))
-            idx = ("ops::Index<" in rs or "::get(" in rs) and "height" in rs
+            hmention = "height" in rs or (c is m and "$1" in rs)
+            idx = ("ops::Index<" in rs or "::get(" in rs) and hmention
             if idx:
                 r.ok("inflator/result", "the fill path returns the table entry at the requested index", c.where(rb))
-            elif q.contains(rv, lambda y: y[0] in ("phi", "var")) and "height" not in rs:
+            elif q.contains(rv, lambda y: y[0] in ("phi", "var")) and not hmention:
                 r.violation("inflator/result", "the fill path returns %s — a value carried over from filling, not the entry at the requested index: when another thread has grown the table "
                             "past this index between the failed lookup and the write lock, the inflator of a later height is returned" % rs[:140], c.where(rb))
             else:
@@ -643,7 +683,11 @@ def shared(ctx):
     or by a member of the same batch (C13.R3: both tests are by the creating transaction's hash)"""
     from rules.engine import core
     from rules.props import c13
-    core.import_rules(ctx, [c13.r3_lock_gate], "X13")
+    core.import_rules(ctx, [c13.r3_lock_gate, c13.r3_new_stakes_flow], "X13")
+    # 'does not depend on ... how validation is scheduled across threads': whether a coin spent twice inside one batch is noticed must not depend on where
+    # the two spenders sit in the batch (C02.R3: one set, every input of every transaction, a repeated insert is an error)
+    from rules.props import c02
+    core.import_rules(ctx, [c02.r3_double_spend], "X02")
 
 
 RULES = [r1_inventory, r2_batch_commutativity, r3_ambient, r4_commitment_order, r5_globals, r6_parallel_isolation, r7_batch_invariant_reads, shared]
